@@ -32,8 +32,8 @@ func exploreAll(p *Prog, c *Closures, jobs []exploreJob, mask EffSet, r *Result,
 			defer func() { <-sem }()
 			x := NewExplorer(p, c, j.root, j.val, mk(j))
 			x.Mask = mask
-			if j.root.Parent() != nil {
-				x.InitFree, x.InitFreeIsCell = spawnFacts(p, c, j.root)
+			if p.GoRoot[j.root] && (j.root.Parent() != nil || p.GoOnly[j.root]) {
+				x.InitFree, x.InitFreeIsCell, x.InitParam = spawnFacts(p, c, j.root)
 			}
 			if cfg != nil {
 				cfg(x)
@@ -62,8 +62,8 @@ func toInt(v interface{}) int {
 func apiRoots(p *Prog) []*ssa.Function {
 	var out []*ssa.Function
 	for _, f := range p.Roots() {
-		if f.Parent() != nil {
-			out = append(out, f) // goroutine closure
+		if p.GoRoot[f] && (f.Parent() != nil || p.GoOnly[f]) {
+			out = append(out, f) // goroutine body
 			continue
 		}
 		if f.Signature.Recv() == nil {
@@ -578,6 +578,7 @@ type spawnListener struct {
 	closure *ssa.Function
 	facts   map[int]Fact
 	cell    map[int]bool
+	params  map[int]Fact // named go roots: facts about the arguments (receiver first) at the spawn site(s)
 	seen    bool
 	mu      sync.Mutex
 }
@@ -592,6 +593,31 @@ func (l *spawnListener) Event(x *Explorer, st *State, ev *Event) {
 	}
 	mc, ok := g.Call.Value.(*ssa.MakeClosure)
 	if !ok {
+		if g.Call.StaticCallee() != l.closure {
+			return
+		}
+		l.mu.Lock()
+		defer l.mu.Unlock()
+		for i, a := range g.Call.Args {
+			f := st.factOf(a)
+			f.Tags |= x.tagsOf(st, a)
+			f.OkNil, f.OkTrue = EffSet{}, EffSet{}
+			if !l.seen {
+				l.params[i] = f
+				continue
+			}
+			old := l.params[i]
+			if old.Nil != f.Nil {
+				old.Nil = triUnk
+			}
+			if old.Bool != f.Bool {
+				old.Bool = triUnk
+			}
+			old.Tags &= f.Tags
+			old.Zero = old.Zero && f.Zero
+			l.params[i] = old
+		}
+		l.seen = true
 		return
 	}
 	l.mu.Lock()
@@ -629,18 +655,38 @@ func (l *spawnListener) End(x *Explorer, st *State, reason string)              
 
 var spawnCache sync.Map
 
-func spawnFacts(p *Prog, c *Closures, closure *ssa.Function) (map[int]Fact, map[int]bool) {
+func spawnFacts(p *Prog, c *Closures, closure *ssa.Function) (map[int]Fact, map[int]bool, map[int]Fact) {
 	if v, ok := spawnCache.Load(closure); ok {
 		l := v.(*spawnListener)
-		return l.facts, l.cell
+		return l.facts, l.cell, l.params
 	}
-	l := &spawnListener{closure: closure, facts: map[int]Fact{}, cell: map[int]bool{}}
-	x := NewExplorer(p, c, closure.Parent(), Valuation{}, l)
-	x.Mask = EffSet{}
-	x.Run()
+	l := &spawnListener{closure: closure, facts: map[int]Fact{}, cell: map[int]bool{}, params: map[int]Fact{}}
+	var spawners []*ssa.Function
+	if closure.Parent() != nil {
+		spawners = []*ssa.Function{closure.Parent()}
+	} else {
+		// a named function started with `go f(args)`: every function holding such a statement
+		for _, fn := range p.Funcs {
+			for _, b := range fn.Blocks {
+				for _, in := range b.Instrs {
+					if g, ok := in.(*ssa.Go); ok && g.Call.StaticCallee() == closure {
+						spawners = append(spawners, fn)
+					}
+				}
+			}
+		}
+	}
+	for _, sp := range spawners {
+		for sp.Parent() != nil {
+			sp = sp.Parent()
+		}
+		x := NewExplorer(p, c, sp, Valuation{}, l)
+		x.Mask = EffSet{}
+		x.Run()
+	}
 	if !l.seen {
-		l.facts, l.cell = map[int]Fact{}, map[int]bool{}
+		l.facts, l.cell, l.params = map[int]Fact{}, map[int]bool{}, map[int]Fact{}
 	}
 	spawnCache.Store(closure, l)
-	return l.facts, l.cell
+	return l.facts, l.cell, l.params
 }
